@@ -1183,6 +1183,19 @@ def conv_accepts(ctx, bb, fn, arg):
     lit = unmut(arg)
     if lit[0] == "str":
         return literal_lookup(ctx, fn, lit[1])
+    if lit[0] == "var":
+        # a local assigned only string literals (`let s = match x { A => "..", B => "..", _ => return .. }`): every one of
+        # the finitely many values must be accepted
+        tm = ctx.an.terms
+        l = lit[1]
+        if not tm.defs.partial[l] and tm.defs.whole[l]:
+            vals = [unmut(ctx.sy._def_term(d)) for d in tm.defs.whole[l]]
+            if all(v[0] == "str" for v in vals):
+                for v in vals:
+                    ok, h = literal_lookup(ctx, fn, v[1])
+                    if not ok:
+                        return ok, h
+                return True, "every one of the %d literal values is accepted (%s)" % (len(vals), h)
     p = ctx.sy.poly(arg)
     if p is None:
         return False, "argument of %s is not polynomial" % fn.split("::")[-3:]
